@@ -363,7 +363,13 @@ def r03h(repo: Repo, chk: Check):
                     if not p:
                         continue
                     tt = norm(t)
-                    if tt.endswith(".is_constant") or tt.endswith("_const") or (isinstance(t, ast.Call) and norm(t.func) == "isinstance" and "Const" in tt):
+                    flag = False
+                    if isinstance(t, ast.Name):
+                        # a local that holds the constness verdict of is_constant(..) (first element of its result), whatever it is called
+                        tid = live_ids(cfg, t)
+                        fds = rd.at(tid[0] if tid else ids[0], t.id)
+                        flag = bool(fds) and all(d.kind == "assign" and d.index == (0,) and isinstance(d.value, ast.Call) and norm(d.value.func).endswith("is_constant") for d in fds)
+                    if flag or tt.endswith(".is_constant") or tt.endswith("_const") or (isinstance(t, ast.Call) and norm(t.func) == "isinstance" and "Const" in tt):
                         have += 1
                 chk.judge("R03.h", key + " [guard]", have >= need,
                           f"the evaluator is applied without a guard that all {need} operand(s) are constant (guards: {gtxt})",
